@@ -157,6 +157,28 @@ def eth2WriteToSlice (h : Codec.Eth2) (buf : Bytes) : Bytes × Except SpaceErr N
 def sllWriteToSlice (h : Codec.Sll) (buf : Bytes) : Bytes × Except SpaceErr Nat :=
   headerWriteToSlice 16 "LinuxSllHeader" (Codec.Sll.toBytes h) buf
 
+/-- `err::packet::BuildSliceWriteError` as far as the I/O path is concerned. -/
+inductive BuildSliceErr (ε : Type) where
+  | space (required : Nat)
+  | content (e : ε)
+deriving Repr
+
+/-- `final_write_to_slice` (packet_builder.rs): `required = final_size(..)`,
+    `buffer.get_mut(..required).ok_or(Space(required))?`, `SliceCoreWrite::new(slice)`, the parts
+    (`From<SliceCoreWriteError>`: `Space(err.required_len)`), `Ok(required)`.
+    Result: the buffer content afterwards and the returned value. -/
+def buildWriteToSlice {ε : Type} (s : Ser ε) (required : Nat) (buf : Bytes) :
+    Bytes × Except (BuildSliceErr ε) Nat :=
+  if buf.length < required then (buf, .error (.space required))
+  else
+    match sliceParts s.parts { buf := buf.take required, pos := 0 } with
+    | (w, .error e) => (w.buf ++ buf.drop required, .error (.space e.required))
+    | (w, .ok ()) =>
+      (w.buf ++ buf.drop required,
+       match s.fin with
+       | .ok () => .ok required
+       | .error c => .error (.content c))
+
 /-! ## failing reader -/
 
 /-- a `std::io::Read` over `data` that fails once `failAt` bytes were handed out (`none`: never);
